@@ -197,11 +197,13 @@ const (
 	hopCloseNoWait          // CONNECT, then close without reading the reply
 	hopSilent               // send nothing, wait for the relay to give up
 	hopTruncated            // length prefix announces more bytes than are sent, then half-close
+	hopResetDelayed         // CONNECT, then reset while the relay is in the stop handshake (the destination answers slowly)
+	hopCloseDelayed         // CONNECT, then close while the relay is in the stop handshake
 	nHopPlans
 )
 
 var hopPlanNames = [...]string{"normal", "reset-at-open", "garbage", "oversized", "wrong-type", "nil-peer", "bad-peer-id",
-	"reset-no-wait", "close-no-wait", "silent", "truncated"}
+	"reset-no-wait", "close-no-wait", "silent", "truncated", "reset-during-stop-handshake", "close-during-stop-handshake"}
 
 func (p hopPlan) String() string { return hopPlanNames[p] }
 
@@ -268,6 +270,14 @@ func rawConnect(ctx context.Context, h host.Host, relayID, dest peer.ID, plan ho
 	case hopCloseNoWait:
 		s.Close()
 		return res
+	case hopResetDelayed:
+		simrt.TimeSleep(500 * time.Millisecond)
+		s.Reset()
+		return res
+	case hopCloseDelayed:
+		simrt.TimeSleep(500 * time.Millisecond)
+		s.Close()
+		return res
 	}
 	msg.Reset()
 	if err := rd.ReadMsg(&msg); err != nil {
@@ -311,10 +321,11 @@ const (
 	stopDisconnect           // close the connection to the relay when the request arrives
 	stopAcceptReset          // accept, then reset the circuit immediately
 	nStopPlans
+	stopSlowAccept stopPlan = nStopPlans // accept after one second (companion of the delayed hop plans; never drawn by itself)
 )
 
 var stopPlanNames = [...]string{"accept", "refuse", "deny", "wrong-type", "garbage", "oversized", "reset", "reset-unread", "close",
-	"silent", "no-status", "disconnect", "accept-reset"}
+	"silent", "no-status", "disconnect", "accept-reset", "slow-accept"}
 
 func (p stopPlan) String() string { return stopPlanNames[p] }
 
